@@ -80,6 +80,42 @@ func c17Length(c *Ctx) {
 		bad = append(bad, "no worker start reachable")
 	}
 	c.report("VerifyIndex:length", fn, bad, fmt.Sprintf("%d path(s) to the first worker start, each through size==length or the device edge", reached))
+	// the exemption is for devices only and the size is that of the file the data is read from:
+	// isDevice tests the ModeDevice bit (a wider test such as "not regular" also exempts symlinks,
+	// fifos and sockets), and the mode and size come from os.Stat, which follows links like the
+	// os.Open that reads the data (an Lstat would see the link's own mode and size)
+	if dv := c.mustFn("isDevice"); dv != nil {
+		okD := false
+		why := "no return found"
+		want, _ := c.importedConst("os", "ModeDevice")
+		for _, r := range returnsOf(dv) {
+			cm, _, ok := cmpOf(unspill(r, r.Results[0]))
+			okD = false
+			why = "the result is not a comparison of mode & os.ModeDevice with 0"
+			if ok && (cm.op == token.NEQ || cm.op == token.EQL) {
+				if and, isAnd := stripConv(cm.x).(*ssa.BinOp); isAnd && and.Op == token.AND {
+					if k, isK := and.Y.(*ssa.Const); isK && k.Value != nil && k.Value.ExactString() == want {
+						if z, isZ := cm.y.(*ssa.Const); isZ && z.Value != nil && constInt64(z) == 0 {
+							okD = true
+						}
+					}
+				}
+			}
+			if !okD {
+				break
+			}
+		}
+		c.verdict(okD, "isDevice:mode-bit", dv.Pos(), "isDevice is the ModeDevice bit test", "isDevice is not the plain ModeDevice bit test ("+why+"): the length check of verify-index (and the sizing of extract) is skipped for things that are not devices")
+	}
+	nStat := 0
+	for _, call := range callsAll(fn, named("os.Stat", "os.Lstat", "(*os.File).Stat")) {
+		nStat++
+		c.verdict(callee(call) != "os.Lstat", "VerifyIndex:stat-follows-links", call.Pos(), "mode and size are taken with a call that follows symbolic links",
+			"VerifyIndex looks at the file with os.Lstat: for a symlinked data file it sees the link's own mode and size, not those of the file whose bytes it verifies")
+	}
+	if nStat == 0 {
+		c.bad("VerifyIndex:stat-follows-links", fn.Pos(), "VerifyIndex does not stat the file")
+	}
 }
 
 // alternatives expands non-loop phis and '+ const' into the list of linear forms a value can take.
